@@ -256,14 +256,44 @@ def check(ctx, run):
 
     # ---------------- R4 ----------------------------------------------------
     st = methods["printCurrentTestStarted"]
-    cnts = count_on_paths(prog, st, enumerate_paths(st), lambda n: n["k"] == "UnaryOperator" and n.get("op") == "++" and render(st, n["c"][0]).endswith("testCount_"))
-    run.ob("R4", "testCount_++ exactly once per started test", st.site, cnts and all(c == 1 for c in cnts), witness=cnts)
-    # node appended: tail_ advanced / created on every path, name/file/line stored
-    for p in enumerate_paths(st):
-        a = [l for l, r, n in assignments(st, p)]
-        oc = [render(st, st.args(c)[0]) for c in path_calls(prog, st, p) if c["k"] == "CXXOperatorCallExpr" and c.get("callee", {}).get("qn", "").endswith("operator=")]
-        ok = any(x.endswith("tail_") for x in a) and any(x.endswith("->name_") for x in oc) and any(x.endswith("->file_") for x in oc) and any(x.endswith("lineNumber_") for x in a)
-        run.ob("R4", "a new case node is appended and filled on path [%s]" % p.describe(st), st.site, ok, witness={"assigned": a, "strings": oc})
+    # folded over a heap model: a group with 0 / 1 / 2 case nodes already, a test that will run / is ignored
+    IMPL = 3000
+    for existing, will_run in itertools.product((0, 1, 2), (1, 0)):
+        nodes = [5000 + 100 * k for k in range(existing)]
+        env = {"impl_": IMPL, "@%d.results_.testCount_" % IMPL: existing, "@%d.results_.head_" % IMPL: nodes[0] if nodes else 0, "@%d.results_.tail_" % IMPL: nodes[-1] if nodes else 0,
+               st.params[0]["name"]: 77}
+        for k, nd in enumerate(nodes):
+            env["@%d.next_" % nd] = nodes[k + 1] if k + 1 < len(nodes) else 0
+        hooks = string_hooks({"UtestShell::getGroup": lambda *a_: ("str", "grp"), "UtestShell::getName": lambda *a_: ("str", "tname"), "UtestShell::getFile": lambda *a_: ("str", "file.cpp"),
+                              "UtestShell::getLineNumber": lambda *a_: 42, "UtestShell::willRun": lambda *a_, will_run=will_run: will_run, "GetPlatformSpecificTimeInMillis": lambda *a_: 1000})
+        ev = Evaluator(prog, st, env=env, calls=hooks)
+        ev.heap_mode = True
+        ev.pass_object = True
+        why = ""
+        try:
+            ev.run_blocks(st.entry, max_steps=600)
+            e = ev.env
+            news = [t[1][0] for t in ev.trace if t[0].startswith("new JUnitTestCaseResultNode")]
+            chain_, cur = [], e.get("@%d.results_.head_" % IMPL)
+            while cur and len(chain_) < 6:
+                chain_.append(cur)
+                cur = e.get("@%d.next_" % cur, 0)
+            if e.get("@%d.results_.testCount_" % IMPL) != existing + 1:
+                why = "testCount_ goes from %d to %s" % (existing, e.get("@%d.results_.testCount_" % IMPL))
+            elif len(news) != 1 or chain_ != nodes + news or e.get("@%d.results_.tail_" % IMPL) != news[0]:
+                why = "the case list becomes %s with tail %s (new nodes %s); expected the old list plus one new node at the tail" % (chain_, e.get("@%d.results_.tail_" % IMPL), news)
+            else:
+                nn = news[0]
+                got = (e.get("@%d.name_" % nn), e.get("@%d.file_" % nn), e.get("@%d.lineNumber_" % nn), e.get("@%d.ignored_" % nn))
+                if got[:3] != (("str", "tname"), ("str", "file.cpp"), 42) or bool(got[3]) != (not will_run):
+                    why = "the new node holds (name, file, line, ignored) = %s; expected the started test's (tname, file.cpp, 42, %s)" % (got, not will_run)
+                elif e.get("@%d.results_.group_" % IMPL) != ("str", "grp"):
+                    why = "the suite's group name is %s" % (e.get("@%d.results_.group_" % IMPL),)
+        except Unknown as u:
+            run.broke("C16.R4: printCurrentTestStarted cannot be folded: %s" % u)
+            continue
+        run.ob("R4", "printCurrentTestStarted folded [%d cases so far, test %s]: testCount_ +1, one new case node appended at the tail and filled with the test's name/file/line/ignored" % (existing, "runs" if will_run else "is ignored"), st.site, not why,
+               witness=why or "ok", what=why)
     pf = methods["printFailure"]
     for p in enumerate_paths(pf):
         inc = [d for d in deltas_on_path(pf, p, "failureCount_") if d == 1]
